@@ -70,9 +70,28 @@ def build(t, v0, pname, hist, salt=0):
     s.pl = o.pl
     s.rooms = {p: string_room(lv) for p, lt, lv in xt.leaf_paths(t, v0) if lt[0] == "Str"}
     s.view = None
+    # a view that exists from the start; both long-lived handles are read in full after construction and after every
+    # replayed event, so that whatever a handle remembers about earlier reads is part of every explored state
+    s.v0 = None
+    try:
+        s.v0 = view_of(s) if t[0] != "U" else None
+    except Exception:
+        pass
+    touch(s)
     for ev in hist:
         apply_event(s, ev)
+        touch(s)
     return s
+
+
+def touch(s):
+    for h in (s.h, s.v0):
+        if h is None:
+            continue
+        try:
+            xt.read(s.t, h, deep=False)
+        except Exception:
+            pass  # judged where it happens
 
 
 def view_of(s):
